@@ -6,7 +6,7 @@ Inductive case :=
     warn, the raw wait status seen by Local (pty only), what run()/join() did *)
 | CReal (e : ending) (pty : bool) (warn : bool) (raw : option Z) (o : outcome)
 (** the real Runner._finish driven through a scripted subclass *)
-| CScripted (s : situation) (returncode : option Z) (o : outcome)
+| CScripted (s : situation) (o : outcome)
 (** Program.run in-process *)
 | CProgram (e : prog_event) (o : prog_out).
 
@@ -37,6 +37,13 @@ Definition raw_matches (e : ending) (raw : Z) : bool :=
   | Killed s => (raw =? sig_status s false)%Z || (raw =? sig_status s true)%Z
   end.
 
+(** what run() / sudo() / Promise.join() does in a situation (the scripted
+    returncode is the situation's status) *)
+Definition run_outcome (s : situation) : outcome :=
+  let o := finish (s_thread_excs s) (s_watcher_errs s) (s_timeout_set s) (s_timed_out s)
+                  (Some (s_status s)) (s_warn s) in
+  if s_sudo s then sudo_wrap (s_bad_password s) o else o.
+
 Definition corr (c : case) : bool :=
   match c with
   | CReal e pty warn raw o =>
@@ -48,17 +55,13 @@ Definition corr (c : case) : bool :=
           outcome_eqb (finish 0 0 false false (Some (true_status e)) warn) o
       | _, _ => false
       end
-  | CScripted s rc o =>
-      outcome_eqb (finish (s_thread_excs s) (s_watcher_errs s) (s_timeout_set s) (s_timed_out s)
-                          rc (s_warn s)) o
+  | CScripted s o => outcome_eqb (run_outcome s) o
   | CProgram e o => prog_out_eqb (program_run e) o
   end.
 
 Definition spec (c : case) : bool :=
   match c with
-  | CReal e pty warn raw o => spec_finish (mkSit 0 0 false false (true_status e) warn) o
-  | CScripted s rc o =>
-      (* the scripted returncode is the status the situation talks about *)
-      optz_eqb rc (Some (s_status s)) && spec_finish s o
+  | CReal e pty warn raw o => spec_finish (mkSit 0 0 false false (true_status e) warn false false) o
+  | CScripted s o => spec_finish s o
   | CProgram e o => spec_program e o
   end.
